@@ -584,6 +584,17 @@ func ruleC15Client(c *Ctx) {
 			} else {
 				c.Bad(rule, FnName(fn)+" | deadline expiry poisons the client", "", "the time-out branch can return without c.SetError: later requests and the pending one are not failed and the replica is not detached", c.witness(ws[0]))
 			}
+			// the deadline is final for the request it was armed for: after it fired the same wait is
+			// not entered again (re-arming it while the peer answers pings on the connection keeps a
+			// lost reply pending for ever); only a new round - new message, new deadline - waits again
+			ws = Query{Fn: fn, StartHeld: true, KillEdge: to, Gen: func(in ssa.Instruction) bool {
+				return len(mk) == 1 && in == mk[0]
+			}, IsSite: func(in ssa.Instruction) bool { return in == sels[0] }}.Run()
+			if len(ws) == 0 {
+				c.OK(rule, FnName(fn)+" | an expired deadline is final", c.P.InstrPos(sel), "no path from the time-out branch back to the wait of the same request", true)
+			} else {
+				c.Bad(rule, FnName(fn)+" | an expired deadline is final", c.P.InstrPos(sel), "after the deadline fired the wait for the same request is entered again: a reply that never comes keeps the request, and the controller lock its caller holds, pending", c.witness(ws[0]))
+			}
 		} else {
 			c.Bad(rule, FnName(fn)+" | waits on completion or deadline", "", "expected one select", nil)
 		}
